@@ -80,7 +80,7 @@ Ltac dcase t H := let bb := fresh "bb" in remember t as bb eqn:H; destruct bb; s
 Lemma Inv_step s l : Inv s -> Inv (step s l).
 Proof.
   intros I.
-  destruct l as [| |c|c|]; cbn [step].
+  destruct l as [| | |c|c|]; cbn [step].
   - (* LStart *)
     dcase (v_started s) Hst; [exact I|]. pose proof I as [I1 I2 I3 I4 I5 I6 I7 I8 I9].
     destruct (I1 Hst) as [Hl [Hs [Hd Hc]]].
@@ -101,6 +101,23 @@ Proof.
         -- rewrite nth_error_app2 in H by exact Hge.
            destruct (c - length (v_conns s)) as [|[|n]]; cbn in H; try discriminate.
            injection H as <-. reflexivity.
+    + constructor; cbn; intros; eauto.
+      * destruct (I1 H) as [_ [? [? ?]]]; auto.
+      * destruct (I2 H H0) as [Hx _]; congruence.
+      * destruct (I3 H) as [_ ?]; auto.
+  - (* LConnectBad *)
+    dcase (v_listening s) Hl; pose proof I as [I1 I2 I3 I4 I5 I6 I7 I8 I9].
+    + assert (Hns : v_stopreq s = false)
+        by (destruct (v_stopreq s) eqn:E; auto; destruct (I3 eq_refl); congruence).
+      assert (Hst : v_started s = true)
+        by (destruct (v_started s) eqn:E; auto; destruct (I1 eq_refl); congruence).
+      destruct (I2 Hst Hns) as [_ Hd].
+      constructor; unfold set_conns; cbn; intros; auto; try congruence.
+      * destruct (Nat.lt_ge_cases c (length (v_conns s))) as [Hlt|Hge].
+        -- rewrite nth_error_app1 in H by exact Hlt. eauto.
+        -- rewrite nth_error_app2 in H by exact Hge.
+           destruct (c - length (v_conns s)) as [|[|n]]; cbn in H; try discriminate.
+           injection H as <-. cbn in H0. discriminate.
     + constructor; cbn; intros; eauto.
       * destruct (I1 H) as [_ [? [? ?]]]; auto.
       * destruct (I2 H H0) as [Hx _]; congruence.
